@@ -17,6 +17,8 @@ structure Run where
   take : Option Int
   fault : Option (Nat × FaultKind)
   post : Post := .asIs
+  /-- `srcv` sources (contents that change between materialisations): what source `r` holds during this run -/
+  setSrcs : List (Nat × List Int) := []
   deriving Repr
 
 def parseFn (s : String) : Option Fn :=
@@ -53,6 +55,10 @@ def parsePipe : Nat → List String → Option (Pipe × List String)
     match toks with
     | "src" :: r :: xs :: rest => do
       let r ← r.toNat?; let xs ← parseIntList xs
+      pure (.src r xs 0, rest)
+    -- `srcv r xs1|xs2|…`: a probe source whose contents are xs_i during the i-th materialisation (the last entry repeats)
+    | "srcv" :: r :: xss :: rest => do
+      let r ← r.toNat?; let xs ← parseIntList ((xss.splitOn "|").headD "-")
       pure (.src r xs 0, rest)
     | "lc" :: r :: rest => do
       let r ← r.toNat?; let (p, rest) ← parsePipe fuel rest
@@ -112,6 +118,34 @@ def parsePipes : Nat → Nat → List String → Option (PipeList × List String
     pure (.cons p ps, rest)
 end
 
+/-- the `srcv` tokens of a pipeline text: source id and its contents per materialisation -/
+def variantsOf : List String → List (Nat × List (List Int))
+  | "srcv" :: r :: xss :: rest =>
+    match r.toNat?, (xss.splitOn "|").mapM parseIntList with
+    | some r, some alts => (r, alts) :: variantsOf rest
+    | _, _ => variantsOf rest
+  | _ :: rest => variantsOf rest
+  | [] => []
+
+mutual
+/-- replace the contents of the probe source `r` (the operator object is at rest: its cursor is 0) -/
+def setSrc (r : Nat) (xs : List Int) : Pipe → Pipe
+  | .src r' ys idx => if r' == r then .src r' xs idx else .src r' ys idx
+  | .lc q p => .lc q (setSrc r xs p)
+  | .map f p => .map f (setSrc r xs p)
+  | .filter g p => .filter g (setSrc r xs p)
+  | .limit n c p => .limit n c (setSrc r xs p)
+  | .skip n d p => .skip n d (setSrc r xs p)
+  | .concat ps a b c => .concat (setSrcList r xs ps) a b c
+  | .zip ps o => .zip (setSrcList r xs ps) o
+  | .merge ps o sl => .merge (setSrcList r xs ps) o sl
+  | .window a b c d e f p => .window a b c d e f (setSrc r xs p)
+  | .cluster a b c d e f p => .cluster a b c d e f (setSrc r xs p)
+def setSrcList (r : Nat) (xs : List Int) : PipeList → PipeList
+  | .nil => .nil
+  | .cons p ps => .cons (setSrc r xs p) (setSrcList r xs ps)
+end
+
 def parseFault (s : String) : Option (Option (Nat × FaultKind)) :=
   if s == "nofault" then some none
   else match s.splitOn "@" with
@@ -158,6 +192,10 @@ def parseCase (c : String) : Option (Pipe × List Run) :=
     let (p, rest) ← parsePipe 200 ptoks
     if !rest.isEmpty then none
     let rs ← runs.mapM parseRun
+    let vs := variantsOf ptoks
+    let rs := if vs.isEmpty then rs else
+      (rs.zip (List.range rs.length)).map (fun (r, i) =>
+        { r with setSrcs := vs.map (fun (rid, alts) => (rid, alts.getD (min i (alts.length - 1)) [])) })
     pure (p, rs)
   | [] => none
 
@@ -192,8 +230,12 @@ structure RunResult where
 
 def fuelDefault : Nat := 100000
 
+/-- the operator object as it stands during run `r`: `srcv` sources hold that run's contents -/
+def pipeAt (p : Pipe) (r : Run) : Pipe := r.setSrcs.foldl (fun p (rid, xs) => setSrc rid xs p) p
+
 /-- one materialisation of the operator object `p` (the take wrapper is a fresh Limit) -/
 def runOnce (p : Pipe) (r : Run) : RunResult :=
+  let p := pipeAt p r
   let w : World := { fault := r.fault }
   match r.take with
   | none =>
